@@ -2,3 +2,4 @@
 pub mod program;
 pub mod lzma2;
 pub mod xz;
+pub mod bytes;
